@@ -2,8 +2,21 @@
 
 package blockwise
 
+import "time"
+
 // VerifSizes returns the number of entries in the reassembly (receiving) and send caches
 // (verification harness only).
 func (b *BlockWise[C]) VerifSizes() (receiving int, sending int) {
 	return b.receivingMessagesCache.Length(), b.sendingMessagesCache.Length()
+}
+
+// VerifAge makes every entry of both caches d older (its validity ends d earlier) without running a sweep: the
+// harness's way to let the transfer timeout elapse.
+func (b *BlockWise[C]) VerifAge(d time.Duration) {
+	for _, e := range b.receivingMessagesCache.CopyData() {
+		e.ValidUntil.Store(e.ValidUntil.Load().Add(-d))
+	}
+	for _, e := range b.sendingMessagesCache.CopyData() {
+		e.ValidUntil.Store(e.ValidUntil.Load().Add(-d))
+	}
 }
